@@ -113,6 +113,39 @@ def opValidateCalib : P String := do
     | .ok () => "ok accepted"
     | .error _ => "err valueError"
 
+/-- C20 ops (Float twin) -/
+def opPsd (op : String) : P String := do
+  match op with
+  | "sdp_check" => do
+      let n ← nat; let w ← arr Float n
+      let kind ← next
+      let tol ← (if kind == "default" then pure (defaultTol w.toList (Float.ofBits 0x3CB0000000000000)) else scalar Float)
+      finish
+      return match checkSdpFromEigen w.toList tol with
+        | .ok b => s!"ok {if b then 1 else 0}"
+        | .error e => s!"err {e.name}"
+  | "cfm_eig" => do
+      let d ← nat; let V := Mat.ofArray (← arr Float (d*d)) d d; let w := Vec.ofArray (← arr Float d) d; finish
+      return "ok " ++ renderArr (mahalanobis (componentsFromEig V w).memo).toArray
+  | "cfm_diag" => do
+      let d ← nat; let m := Vec.ofArray (← arr Float d) d; finish
+      return "ok " ++ renderArr (mahalanobis (componentsFromDiag m).memo).toArray
+  | "pinv_eig" => do
+      let d ← nat; let w := Vec.ofArray (← arr Float d) d; let V := Mat.ofArray (← arr Float (d*d)) d d
+      let tol ← scalar Float; finish
+      return "ok " ++ renderArr (pseudoInverseFromEig w V tol).toArray
+  | "init_metric" => do
+      let o ← next; let sh ← bool; let sy ← bool; let sdpk ← next; let spd ← bool; finish
+      let opt := match o with
+        | "identity" => InitOpt.identity | "covariance" => .covariance | "random" => .random
+        | "array" => .array | _ => .invalid
+      let sdp : Except Err Bool := match sdpk with
+        | "definite" => .ok true | "semidefinite" => .ok false | _ => .error .nonPSD
+      return match initializeMetric opt sh sy sdp spd with
+        | .ok r => s!"ok {repr r}"
+        | .error e => s!"err {e.name}"
+  | _ => throw s!"unknown op {op}"
+
 def optInt : P (Option Int) := do
   let t ← next
   if t == "none" then return none
@@ -148,6 +181,7 @@ def dispatch : P String := do
   | "decision_trip" | "decision_quad" => opClassify Float op
   | "predict_pair" | "predict_trip" | "predict_quad" | "score_frac" | "auc" => opClassify Rat op
   | "check_n_components" | "auto_select_init" | "check_tuple_size" => opGen op
+  | "sdp_check" | "cfm_eig" | "cfm_diag" | "pinv_eig" | "init_metric" => opPsd op
   | "calib" => opCalib
   | "validate_calib" => opValidateCalib
   | _ => throw s!"unknown op {op}"
